@@ -249,6 +249,90 @@ def way_event(way, style, msg):
     return ev
 
 
+# ---- (b) histories on ONE Style object: supplied, changed through its setters, supplied again
+ONE = {"k": "t", "c": "1"}
+TWO = {"k": "t", "c": "2"}
+
+
+def hist_msg(way, attrs):
+    tag = {"named": True, "name": "ts", "sup": {1: "set", 2: "added"}.get(way, ""), "fg": attrs["fg"], "bg": attrs["bg"],
+           "at": [a for a in ATTRS if a in attrs["at"]]}
+    if way in (1, 2):
+        return tag, [{"k": "open", "tag": tag}, ONE, {"k": "close", "tag": tag}, TWO]
+    return tag, [ONE]
+
+
+def run_history(case):
+    """case = {init: {fg, bg, at}, ops: [set(f, c, b) | use(way, col[, via])]}: every operation acts on the same Style
+    object; returns one MarkupTrace event per use"""
+    from clikit.api.formatter import Style, StyleSet
+    from clikit.formatter import AnsiFormatter, PlainFormatter
+    from clikit.io import BufferedIO
+
+    attrs = {"fg": case["init"]["fg"], "bg": case["init"]["bg"], "at": list(case["init"]["at"])}
+    obj = Style("ts")
+    if attrs["fg"] != "none":
+        obj.fg(attrs["fg"])
+    if attrs["bg"] != "none":
+        obj.bg(attrs["bg"])
+    for a in attrs["at"]:
+        getattr(obj, ATTR_METHOD[a])()
+    evs = []
+    for op in case["ops"]:
+        if op["op"] == "set":
+            if op["f"] in ("fg", "bg"):
+                getattr(obj, op["f"])(None if op["c"] == "none" else op["c"])
+                attrs[op["f"]] = op["c"]
+            else:
+                getattr(obj, ATTR_METHOD[op["f"]])(op["b"])
+                attrs["at"] = [a for a in attrs["at"] if a != op["f"]] + ([op["f"]] if op["b"] else [])
+            continue
+        way, col = op["way"], op["col"]
+        tag, msg = hist_msg(way, attrs)
+        ev = {"msg": msg, "base": [tag] if way == 3 else [], "col": col, "how": "hist-w%d%s" % (way, op.get("via", "")),
+              "res": "ok", "toks": []}
+        try:
+            cls = AnsiFormatter if col else PlainFormatter
+            kw = {"forced": True} if col and op.get("via") else {}
+            if way == 1:
+                f = cls(StyleSet([obj]), **kw)
+            else:
+                f = cls(StyleSet([]), **kw)
+                if way == 2:
+                    f.add_style(obj)
+            target = BufferedIO(formatter=f) if op.get("via") else f
+            r = target.format(markup(msg), obj) if way == 3 else target.format(markup(msg))
+            ev["toks"] = tokenise(r)
+        except Exception as e:  # noqa
+            ev["res"] = type(e).__name__
+        evs.append(ev)
+    return evs
+
+
+def case_of_history(rec):
+    first = rec["ops"][0]["style"]
+    ops = []
+    for h in rec["ops"]:
+        if h["op"] == "set":
+            ops.append({"op": "set", "f": h["f"], "c": h["c"], "b": h["b"]})
+        else:
+            ops.append({"op": "use", "way": h["way"], "col": h["col"]})
+    return {"part": "hist", "init": {"fg": first["fg"], "bg": first["bg"], "at": list(first["at"])}, "ops": ops}
+
+
+def random_history(rng, n):
+    init = {"fg": rng.choice(COLOURS), "bg": rng.choice(COLOURS), "at": [a for a in ATTRS if rng.random() < 0.3]}
+    ops = [{"op": "use", "way": rng.randint(1, 3), "col": rng.random() < 0.7, "via": rng.choice(["", "/io"])}]
+    for _ in range(n):
+        if rng.random() < 0.6:
+            f = rng.choice(["fg", "bg"] + ATTRS)
+            ops.append({"op": "set", "f": f, "c": rng.choice(COLOURS) if f in ("fg", "bg") else "", "b": rng.random() < 0.5})
+        else:
+            ops.append({"op": "use", "way": rng.randint(1, 3), "col": rng.random() < 0.7, "via": rng.choice(["", "/io"])})
+    ops.append({"op": "use", "way": rng.randint(1, 3), "col": True, "via": ""})
+    return {"part": "hist", "init": init, "ops": ops}
+
+
 def norm(x):
     return json.dumps(x, sort_keys=True)
 
@@ -302,6 +386,35 @@ def run_markup(ctx, quick):
     ctx.extra["styles_replayed"] = len(recs)
     ctx.extra["styles_not_reproduced"] = nb_mis
     ctx.sample({"style": recs[len(recs) // 2]["style"], "way": recs[len(recs) // 2]["way"]})
+
+    # ---- (b) histories on one style object (use ; set ; [set ;] use ...)
+    r = ctx.model(MSPEC, "MC_MarkupHist", "MC_MarkupHist_%s.cfg" % ctx.tier, name="markup: one style object, used - changed - used", workers=8)
+    recs = G.ordered(T.emitted(r))
+    if len(recs) < 3000:
+        raise T.MachineryError("MC_MarkupHist emitted only %d histories" % len(recs))
+    nh_mis = 0
+    for rec in recs:
+        case = case_of_history(rec)
+        evs = run_history(case)
+        uses = [h for h in rec["ops"] if h["op"] == "use"]
+        ctx.count()
+        ctx.nontriv(("hist", norm(case)))
+        same = len(evs) == len(uses) and all(e["res"] == "ok" and norm(e["toks"]) == norm(h["out"]) and norm(e["msg"]) == norm(h["msg"])
+                                             for e, h in zip(evs, uses))
+        if not same:
+            nh_mis += 1
+        if not same or ctx.rng.random() < (0.05 if quick else 0.003):
+            traces.append(evs)
+            cases.append(case)
+    ctx.extra["style_histories_replayed"] = len(recs)
+    ctx.extra["style_histories_not_reproduced"] = nh_mis
+    ctx.sample({"style_history": case_of_history(recs[len(recs) // 2])})
+    for i in range(300 if quick else 4000):
+        case = random_history(ctx.rng, ctx.rng.randint(1, 7))
+        traces.append(run_history(case))
+        cases.append(case)
+        ctx.count()
+        ctx.nontriv(("rndhist", i))
 
     # ---- code -> spec: seeded random messages, longer and over more styles than TLC enumerates
     n = 600 if quick else 8000
@@ -406,6 +519,8 @@ def replay_markup(case):
         return [render_event(case["msg"], case["base"], case["col"], case["how"])]
     if case["part"] == "b":
         return [way_event(case["way"], case["style"], case["msg"])]
+    if case["part"] == "hist":
+        return run_history(case)
     return shared_formatter_trace(case["msgs"])
 
 
